@@ -43,7 +43,7 @@ def feasible_world(w):
 def mon_c05(run, world):
     bad = []
     timeout = world["flags"]["loop_timeout"]
-    if run["status"] == "solver-licence-limit":
+    if run["status"] in ("solver-licence-limit", "harness-timeout"):
         return bad
     if run["status"] != "ended":
         bad.append("simulate() did not return: %s %s" % (run["status"], (run.get("error") or "")[:200]))
